@@ -148,3 +148,14 @@ Definition r_pay_prove (pk : pkey K) (rp : rparams K) (hr gr : Z) (t1 t2 : Z) (o
   match pay_prove_with closeK pk rp (fq hr) (fq gr) (sig t1 t2) (fqs old) cbz mbz (fqs new) d (fq c) with
   | Some p => 1 :: vpp p | None => [0]
   end.
+
+(** challenge inputs of the library types *)
+Definition r_chunks_pk (pk : pkey K) : list Z := enc_atoms (pk_chunks pk).
+Definition r_chunks_cp (g : Z) (t : list Z) : list Z :=
+  enc_atoms (if g =? 1 then cp1_chunks (mk_cpl t) else cp2_chunks (mk_cpl t)).
+Definition r_chunks_sp (t : list Z) : list Z := enc_atoms (sp_chunks (mk_sp t)).
+Definition r_chunks_rp (rp : rparams K) : list Z := enc_atoms (rp_chunks rp).
+Definition r_chunks_range (ps : list (list Z)) : list Z := enc_atoms (range_chunks (map mk_sp ps)).
+Definition r_chunks_sig (s1 s2 : Z) : list Z := enc_atoms (sig_chunks (sig s1 s2)).
+Definition r_chunks_ped (g h : Z) (gs : list Z) : list Z :=
+  enc_atoms (if g =? 1 then A1 (fq h) :: map A1 (fqs gs) else A2 (fq h) :: map A2 (fqs gs)).
